@@ -657,7 +657,7 @@ func c15ComparePerm(r *sim.Run, args []string, base, perm c15Out) {
 var c15Engine = &sim.Engine{
 	Prop:  "C15",
 	Level: "exploration",
-	Rule: "one run = one episode: 2-3 argument sets over one set of input files (repository testdata or generated); per argument set a cold sequential reference in a fresh child process; then 4-40 executions of the real benchstat entry point in-process under a seeded scheduler (every yield point decided from the tape), owned map order, GOMAXPROCS in {1,2,4,16}, caches warmed by the preceding executions; outputs must be byte-identical; plus the line-permutation relation on csv output; " +
+	Rule: "one run = one episode: 2-3 argument sets over one set of input files (repository testdata or generated); per argument set a cold sequential reference in a fresh child process; then 4-40 executions of the real benchstat entry point in-process under a seeded scheduler (every yield point decided from the tape), owned map order, GOMAXPROCS in {1,2,4,16}, caches warmed by the preceding executions, the simulated clock advanced and environment variables changed between executions, now and then preceded by a run whose output writer fails; outputs must be byte-identical; plus the line-permutation relation on csv output; " +
 		"non-trivial = more than 50 scheduler steps; distinct = distinct (schedule hash, reference output hash)",
 	Assumptions: []string{
 		"yield points are those inserted by the instrumenter (go statements, channel operations, sync/atomic method calls, sync.Once.Do, writes to fields/package variables in worker goroutines, every statement of goroutine bodies); interleavings inside un-instrumented packages (internal/stats, sort) are not explored",
